@@ -541,6 +541,65 @@ func runLike(c *lib.Ctx, cs caseT) {
 	}
 }
 
+// runLikeSweep: every pattern over {a,b,%,_} and every string over {a,b} up to length 5 (binary collation): the real
+// matcher against the declarative definition, both directions
+func runLikeSweep(c *lib.Ctx, cs caseT) {
+	id := c.CaseNoModel(cs, "like-sweep")
+	c.Count("like_exhaustive_sweep")
+	var strs, pats [][]byte
+	var rec func(alpha string, n int, cur []byte, out *[][]byte)
+	rec = func(alpha string, n int, cur []byte, out *[][]byte) {
+		*out = append(*out, append([]byte{}, cur...))
+		if len(cur) == n {
+			return
+		}
+		for i := 0; i < len(alpha); i++ {
+			rec(alpha, n, append(append([]byte{}, cur...), alpha[i]), out)
+		}
+	}
+	rec("ab", 5, nil, &strs)
+	rec("ab%_", 5, nil, &pats)
+	bad := 0
+	for _, p := range pats {
+		var nodes []likeNode
+		for _, ch := range p {
+			switch ch {
+			case '%':
+				nodes = append(nodes, likeNode{2, 0})
+			case '_':
+				nodes = append(nodes, likeNode{1, 0})
+			default:
+				nodes = append(nodes, likeNode{0, int32(ch)})
+			}
+		}
+		var m expression.LikeMatcher
+		var err error
+		if pn, pv := lib.Recover(func() { m, err = expression.ConstructLikeMatcher(sql.Collation_utf8mb4_0900_bin, string(p), '\\') }); pn || err != nil {
+			c.PredFail(id, "like-sweep/construct-fails", fmt.Sprintf("pattern %q: %v %s", p, err, pv), cs)
+			return
+		}
+		for _, s := range strs {
+			c.PredChecked()
+			ws := make([]int32, len(s))
+			for i, ch := range s {
+				ws[i] = int32(ch)
+			}
+			var got bool
+			if pn, pv := lib.Recover(func() { got = m.Match(string(s)) }); pn {
+				c.PredFail(id, "panic/like", fmt.Sprintf("%q LIKE %q panics: %s", s, p, pv), caseT{Kind: "like", Collation: "utf8mb4_0900_bin", A: hex.EncodeToString(s), B: hex.EncodeToString(p)})
+				return
+			}
+			if want := refLike(nodes, ws); got != want {
+				bad++
+				if bad <= 3 {
+					c.PredFail(id, "like-differs-from-definition-under-collation", fmt.Sprintf("utf8mb4_0900_bin: %q LIKE %q = %v, expected %v", s, p, got, want),
+						caseT{Kind: "like", Collation: "utf8mb4_0900_bin", A: hex.EncodeToString(s), B: hex.EncodeToString(p)})
+				}
+			}
+		}
+	}
+}
+
 func genPattern(r *lib.RNG, s string) string {
 	rs := []rune(s)
 	var sb strings.Builder
@@ -572,6 +631,8 @@ func genPattern(r *lib.RNG, s string) string {
 
 func runCase(c *lib.Ctx, cs caseT) {
 	switch cs.Kind {
+	case "like-sweep":
+		runLikeSweep(c, cs)
 	case "like":
 		runLike(c, cs)
 	case "sweep":
@@ -650,5 +711,6 @@ func main() {
 		for _, coll := range colls {
 			runCase(c, caseT{Kind: "sweep", Collation: coll.Name})
 		}
+		runCase(c, caseT{Kind: "like-sweep"})
 	})
 }
